@@ -33,7 +33,7 @@ WantVisAs(line, cfg, tag) ==
   ELSE WantVis(line, cfg)
 
 \* The implementation-shaped model, run on the same history (drift report, never a verdict)
-IS(b) == INSTANCE Impl_Stream WITH Buf <- b, Fixes <- {"D1", "D14", "D2", "D18"}
+IS(b) == INSTANCE Impl_Stream WITH Buf <- b, Fixes <- {"D1", "D14", "D2", "D18", "D19"}
 RECURSIVE ImplRun(_, _, _, _)
 ImplRun(b, h, st, k) == IF k > Len(h) THEN st ELSE ImplRun(b, h, IS(b)!Step(st, k, h[k]), k + 1)
 ImplRows(e) == IS(e.cfg.buf)!Finish(ImplRun(e.cfg.buf, e.lines, IS(e.cfg.buf)!InitS, 1)).w
@@ -58,6 +58,7 @@ RowMatches(h, cfg, w, g) ==
     [] w.t = "commit"  -> g.t = "commit" /\ g.vis = line.pay
     [] w.t \in BodyC   -> /\ g.t = w.t \/ (g.t = "blank" /\ WantVisAs(line, cfg, w.t) = <<>>)
                           /\ g.vis = WantVisAs(line, cfg, w.t)
+    [] w.t = "subshort" -> g.vis = SubSeq(h[w.k - 1].pay, 1, 12) \o <<46, 46>> \o SubSeq(line.pay, 1, 12)
     [] w.t = "bar"     -> g.t = "deco"
     [] w.t = "mergeHdr" -> g.t = "mergeHdr"
     [] w.t = "hunkHdr" -> /\ g.t = "hunkHdr" /\ g.frag = w.k
@@ -65,7 +66,8 @@ RowMatches(h, cfg, w, g) ==
     [] w.t = "fileHdrOpt" -> g.t = "fileHdr"
     [] w.t = "fileHdr" -> /\ g.t = "fileHdr"
                           /\ w.d # <<>> => /\ g.fp = WantFiles(w.d)
-                                           /\ g.lab = (IF w.d[3] = "comparing" THEN "modified" ELSE w.d[3])
+                                           /\ g.lab = (CASE w.d[3] = "comparing" -> "modified" [] w.d[3] = "submodule" -> ""
+                                                          [] OTHER -> w.d[3])
                                            /\ g.mode = (w.d[4] = 2)
                                            /\ g.bin = w.d[5]
 
